@@ -61,6 +61,11 @@ class Scenario:
             node = s.partition(cfg["n"], timeout=cfg.get("timeout"), **kw)
         elif k == "latest":
             node = s.latest()
+            if cfg.get("oneshot"):
+                # a subscriber in front of the watched consumer that takes itself away in the middle of a delivery (slice(0, n)
+                # has seen its last element): whoever is subscribed behind it must not notice
+                self.oneshot = node.slice(0, cfg["oneshot"])
+                self.oneshot_sink = self.oneshot.sink(lambda x: None)
             if cfg.get("tail") == "zip_latest":
                 # latest as the lossless input of a zip_latest whose other input already has a value
                 self.other = Stream(asynchronous=True)
